@@ -4,6 +4,7 @@ ROOT=$1; P=$2; k=$3
 D=$ROOT/$P/$k; [ -f $D/patch.diff ] || exit 0
 W=/tmp/cb_$$_$RANDOM
 git -C /repo worktree add -q --detach $W HEAD || exit 3
+mkdir -p $W/.tmp; export TMPDIR=$W/.tmp   # the suite leaves ~100 MB of plots per run in $TMPDIR: they go away with the worktree
 if ( cd $W && git apply $D/patch.diff ); then
   [ -n "$SKIP_SUITE" ] && SU=skipped || SU=$(cd $W && PYTHONPATH=$W/perception_eval timeout 1500 /venv/bin/python -m pytest -q -p no:cacheprovider --timeout=900 -n 4 2>&1 | tail -1 | cut -c1-40)
   RES=""
